@@ -53,6 +53,25 @@ func (self ValueString) Fields() (map[string]*Value, *Interrupt) {
 			test := args[0].(ValueString).Inner
 			return NewValueBool(strings.Contains(self.Inner, test)), nil
 		}),
+		"starts_with": NewValueBuiltinFunction(func(executor Executor, cancelCtx *context.Context, span errors.Span, args ...Value) (*Value, *Interrupt) {
+			test := args[0].(ValueString).Inner
+			return NewValueBool(strings.HasPrefix(self.Inner, test)), nil
+		}),
+		"substring": NewValueBuiltinFunction(func(executor Executor, cancelCtx *context.Context, span errors.Span, args ...Value) (*Value, *Interrupt) {
+			upper := args[0].(ValueInt).Inner
+
+			// a negative bound counts from the end
+			if upper < 0 {
+				upper += int64(len(self.Inner))
+			}
+
+			if upper < 0 || upper >= int64(len(self.Inner)) {
+				return nil, NewThrowInterrupt(span, "index out of range")
+			}
+
+			sub := self.Inner[0:upper]
+			return NewValueString(sub), nil
+		}),
 		"to_lower": NewValueBuiltinFunction(func(executor Executor, cancelCtx *context.Context, span errors.Span, args ...Value) (*Value, *Interrupt) {
 			return NewValueString(strings.ToLower(self.Inner)), nil
 		}),
